@@ -494,8 +494,8 @@ impl SubCheck for GiveUp {
 						let _ = a.tx.send((Cmd::Accept, atx));
 					}
 				}
-				// the peer stops reading: no pong is ever sent from here on
-				ws.read_gate.pause();
+				// the peer stops reading for good (its reader task is gone): no pong is ever sent from here on
+				ws.stop_reading();
 				for _ in 0..*calls {
 					w.tokens += 1;
 					let token = format!("q{}", w.tokens);
